@@ -1,19 +1,69 @@
 """Texts of the claims in MANIFEST.json (one entry per property that has a check)."""
-SIM_NOTE = ("Trusted: Coq kernel; extraction (ExtrOcamlBasic only); the hand-written model Sim.v is tied to "
-            "src/sim_services, src/reg_access.py, src/container_utils.py only by the differential correspondence run "
-            "(generated processors/programs; loader-built and parts-built processors); harness glue; fastcore shim. "
-            "Guard: wf_procb (distinct names, sink-first unit order, one read and one write lock per capability route, "
-            "read lock not after write lock).")
+SIM_NOTE = ("Trusted: Coq kernel; extraction (ExtrOcamlBasic only); the hand-written model coq/model/Sim.v (+RegAccess.v, "
+            "Bag.v) is tied to src/sim_services, src/reg_access.py, src/container_utils.py only by the differential "
+            "correspondence run (generated processors/programs; loader-built and parts-built processors); harness glue; "
+            "fastcore shim. Guards: wf_procb (distinct names, sink-first unit order, one read and one write lock per "
+            "capability route, read lock not after write lock) and, where stated, wf_progb (duplicate-free sources, which "
+            "HwInstruction's converter guarantees).")
+PURE_NOTE = ("Trusted: Coq kernel; extraction (ExtrOcamlBasic only); the hand-written model is tied to the Python source "
+             "only by the differential correspondence run (exhaustive small scope + random larger cases); harness glue; "
+             "fastcore shim; 7-bit text.")
+
+
+def sim(text, technique="Coq proof (step invariants lifted over reachable states) + extracted-model correspondence"):
+    return {"text": text, "note": SIM_NOTE, "technique": technique}
+
+
 CLAIMS = {
-    "C04": {
-        "text": "Coq theorem C04_width: for every processor with distinct unit names, every program and every fuel, every "
-                "record of a Done or Stalled diagram of the model holds at most width(u) entries per unit; proved by a "
-                "step invariant through flush/fill/issue/relabel and induction over the run; closed under the global "
-                "context.  The model is re-tied to /repo on every run by the sim correspondence (occupancy projection) and "
-                "the extracted checker C04_checkb (proved equivalent to the statement) judges every implementation diagram.",
-        "note": SIM_NOTE,
-        "technique": "Coq proof (step invariant + induction over the run) + extracted-model correspondence",
-    },
+    "C01": sim("Coq theorems C01_hazard_order (conflicting accesses of an older and a younger instruction are performed in "
+               "strictly increasing cycles, for every wf processor, every program with duplicate-free sources, any fuel, "
+               "Done and Stalled diagrams) and C01_checker_accepts (the extracted checker, order + replay of the diagram's "
+               "reads/writes against sequential execution, accepts every model diagram); proved from a run invariant that "
+               "identifies each register queue with the access plan minus the accesses the diagram shows performed. "
+               "Model tied to /repo by the sim correspondence (full labelled diagram); the same checker judges every "
+               "implementation diagram."),
+    "C02": sim("Coq theorems C02_exact / C02_checker_accepts: every entry of every model diagram is 'S' if it stayed after "
+               "its 'U', else 'D' iff an OLDER instruction has an outstanding conflicting access on a register this unit "
+               "locks, else 'U' (so never waiting on itself, never 'D' without locks); queue/diagram invariant as for C01. "
+               "The pinned tree violated this (fixed by 56046f6; C02_counterexample documents the need for duplicate-free "
+               "sources)."),
+    "C03": sim("Coq theorems C03_routes (the extracted checker C03_checkb: prefix of issued instructions, exactly one place "
+               "per cycle over a contiguous span, input-port start, capability support, moves along declared connections, "
+               "no revisits, D*US* per unit, retired instructions end 'U' in an output-boundary unit), C03_unique_place, "
+               "C03_never_leaves_D for every Done/Stalled model diagram; index book-keeping lemma (delete by descending "
+               "position = filter by instruction) + run invariants."),
+    "C04": sim("Coq theorem C04_width: for every processor with distinct unit names, every program, every fuel, every record "
+               "of a Done or Stalled diagram holds at most width(u) entries per unit; C04_checkb proved equivalent to the "
+               "statement. Occupancy projection of the sim correspondence."),
+    "C05": sim("Coq theorems C05_mem_port / C05_mem_port_pairs: at most one (instruction, unit) arrival per cycle needs the "
+               "memory port, via a counting invariant threaded through flush/fill/issue."),
+    "C06": sim("Coq theorem C06_issue: the extracted checker C06_checkb (in-order first appearances in supporting input "
+               "ports; held back only if every supporting port is full at the end of the cycle or memory-blocked by an "
+               "arrival of that cycle; first port by name that could take it) accepts every model diagram."),
+    "C07": sim("Coq theorem C07_advance: the extracted checker C07_checkb (outputs flush; a stayer is 'S' and every supporting "
+               "successor is full or memory-blocked by another arrival; no younger instruction overtakes unless only the "
+               "older needed the busy memory port) accepts every model diagram; uses the sink-first processing order."),
+    "C08": sim("Coq theorems C08_terminates_within_bound (with fuel bound+1 the model ends Done or Stalled with at most "
+               "instructions x (3 x units + 1) recorded cycles: potential-function argument using C17), C08_no_crash (no "
+               "IndexError/KeyError from the queues for wf processors), C08_checker_accepts (consecutive records differ; "
+               "Done retires everything; Stalled is a fixed point of the cycle function on the state reconstructed from the "
+               "diagram alone). Correspondence through (outcome, cycle count, last record); a time-out of the implementation "
+               "is an outcome that fails the checker."),
+    "C17": {"text": "Coq theorems C17_eq_iff (bag_eqb, the transliteration of BagValDict.__eq__, holds iff every key has "
+                    "permutation-equal entry lists, for duplicate-free keys), C17_len, C17_len_eq, C17_repr, C17_equivalence. "
+                    "Correspondence: exhaustive small scope of record pairs + random larger ones against BagValDict ==, len, repr.",
+            "note": PURE_NOTE, "technique": "Coq proof (sorting/permutation lemmas) + exhaustive and random correspondence"},
+    "C18": {"text": "Coq theorems C18_eq, C18_hash, C18_order (strict total order compatible with equality), C18_contains, "
+                    "C18_str, C18_lower_facts over the model of ICaseString on 7-bit text. Correspondence: all pairs of "
+                    "strings up to length 2 (quick) / 3 (thorough) over {a,A,b,B,1,space} + random printable pairs against "
+                    "ICaseString ==, <, hash, in, str.",
+            "note": PURE_NOTE, "technique": "Coq proof + exhaustive and random correspondence"},
+    "C19": {"text": "Coq theorems C19_protocol (the concrete queue refines the abstract reading spec/QueueSpec.v along every "
+                    "permitted history: can_access = servable exactly as the property states, incl. write-after-own-read), "
+                    "C19_no_failure, C19_maximal_history_empties, C19_histories_finite. Correspondence: all request sequences "
+                    "up to length 4 (quick) / 6 (thorough) over 3 owners with ALL permitted removal interleavings, model, "
+                    "abstract spec and RegAccQBuilder/RegAccessQueue driven in lock-step + random longer histories.",
+            "note": PURE_NOTE, "technique": "Coq refinement proof + exhaustive state-space correspondence"},
 }
 NOT_CLAIMED = {}
 NOTES = ("Two genuine defects of the pinned tree were repaired by unguarded fix: commits in /repo "
